@@ -313,6 +313,10 @@ def plan(ctx):
             continue
           mc.append({'tree': tree, 'weights': list(ws), 'jax': as_jax, 'seed': ctx.seed,
                      'all_orders': n <= 3 or th})
+  # many clients (sums stay exact in float32: small integers, at most a few hundred terms)
+  for tree in ('vec', 'nested', 'half'):
+    mc.append({'tree': tree, 'weights': [1.0] * 64 + [2.0] * 36 + [0.0] * 20 + [0.5] * 8, 'jax': True, 'seed': ctx.seed,
+               'all_orders': False})
   for wt in ('uint8', 'int8', 'int16', 'jint8'):
     for ws in ([2.0, 2.0, 1.0], [2.0, 2.0, 2.0, 2.0], [0.0, 0.0], [1.0, 2.0], [2.0, 2.0]):
       for tree in ('vec', 'nested'):
